@@ -24,7 +24,7 @@ TIERS = {'quick': {'runs': 3000, 'budget_s': 80}, 'thorough': {'runs': 150000, '
 PROBES = ('deprecated_rsa_algorithm_id', 'own_signature_long_subpacket', 'own_key_private', 'own_key_protected', 'own_signature', 'own_message', 'own_encrypted', 'relay_accepted', 'relay_rejected',
           'framing_old', 'framing_5octet', 'framing_partial', 'framing_partial_final5', 'framing_indeterminate', 'unknown_tag', 'unknown_version',
           'uid_invalid_utf8', 'uid_not_nfc', 'filename_non_ascii', 'secret_usage255', 'secret_gnu_dummy', 'secret_gnu_card_stub', 'nested_compressed', 'edit_protect_old_format',
-          'edit_add_uid', 'edit_reprotect_other_cipher', 'trust_odd_length', 'uattr_two_subpackets', 'uattr_image_header_other_version', 'uattr_image_header_other_length', 'uattr_three_images')
+          'edit_add_uid', 'edit_grow_uid', 'edit_grow_uid_old_format_past_two_octet_length', 'edit_reprotect_other_cipher', 'trust_odd_length', 'uattr_two_subpackets', 'uattr_image_header_other_version', 'uattr_image_header_other_length', 'uattr_three_images')
 RELAY_KINDS = ['uid', 'uid', 'literal', 'literal', 'sig', 'sig', 'pubkey', 'pubsub', 'seckey', 'secsub', 'pkesk', 'skesk', 'ops', 'compressed',
                'sed', 'seipd', 'mdc', 'marker', 'trust', 'uattr', 'unknown_tag', 'unknown_version']
 
@@ -47,7 +47,7 @@ def generate(rng, tier):
                           'usage_octet': rng.choice([0, 254, 254, 255]), 's2k': rng.choice([0, 1, 3, 3]),
                           'nsub': rng.choice([0, 1, 2, 4]), 'trailing': bytes(rng.randrange(256) for _ in range(rng.choice([0, 2, 9]))).hex()})
         else:
-            steps.append({'id': sid, 'op': 'edit', 'how': rng.choice(['protect_old_format', 'add_uid', 'reprotect_other_cipher', 'reprotect_other_cipher']), 'keyalg': rng.choice(['p521', 'p384', 'ed25519', 'rsa2048', 'p256']),
+            steps.append({'id': sid, 'op': 'edit', 'how': rng.choice(['protect_old_format', 'add_uid', 'reprotect_other_cipher', 'reprotect_other_cipher', 'grow_uid']), 'keyalg': rng.choice(['p521', 'p384', 'ed25519', 'rsa2048', 'p256']),
                           'seed': rng.randrange(1 << 30)})
     return {'config': {'start_us': 1_600_000_000_000_000}, 'steps': steps}
 
@@ -408,8 +408,53 @@ def execute(case, ctx):
         ctx.mark_nontrivial('|'.join(sorted(shapes)))
 
 
+def _grow_uid(ctx, pgpy, st):
+    """A user id packet read under a drawn header form, its text replaced by one of another size (across the 192 / 256 / 8384 /
+    65536 boundaries of the length encodings), header length recomputed: the packet written then frames exactly its body."""
+    from pgpy.packet import Packet
+    import random as _r
+    r = _r.Random(st['seed'])
+    form, lol = r.choice([('old', 1), ('old', 1), ('old', 2), ('old', 2), ('old', 4), ('new', None), ('new', 2), ('new', 5)])
+    n = r.choice([0, 10, 191, 192, 255, 256, 300, 8383, 8384, 65535, 65536, 70000])
+    ctx.probe('edit_grow_uid')
+    if form == 'old' and lol < 4 and n >= 65536:
+        ctx.probe('edit_grow_uid_old_format_past_two_octet_length')
+    trailer = b'\xb4\x03abc'
+    ctx.checked()
+    src = encode_packet(13, b'Alice' if (form, lol) != ('new', 2) else b'Alice' * 40, form, lol)
+    try:
+        pkt = Packet(bytearray(src))
+        pkt.uid = chr(0x41 + n % 26) * n
+        pkt.update_hlen()
+        out = bytes(pkt.__bytearray__())
+    except Exception as e:
+        ctx.viol('C08:own-packet-unserialisable:grow_uid:%s' % type(e).__name__, 'a user id packet (%s header) edited to %d octets cannot be written: %s' % (form, n, e))
+        return
+    try:
+        pk = split_packets(out + trailer)
+    except WireError as e:
+        pk = None
+    if pk is None or len(pk) != 2 or pk[0].tag != 13 or len(pk[0].body) != n or pk[1].raw != trailer:
+        ctx.viol('C08:edited-export-misframed:grow_uid', 'a user id packet read from %s-format header (length of length %s) and edited to %d octets is '
+                 'written as %d octets that do not frame that body' % (form, lol, n, len(out)))
+        return
+    buf = bytearray(out + trailer)
+    try:
+        again = Packet(buf)
+        out2 = bytes(again.__bytearray__())
+    except Exception as e:
+        ctx.viol('C08:edited-export-unreadable:grow_uid', 'PGPy cannot re-read the edited user id packet: %s: %s' % (type(e).__name__, e))
+        return
+    if bytes(buf) != trailer:
+        ctx.viol('C08:edited-export-misframed:grow_uid:reparse', 're-reading the edited user id packet leaves %d octets instead of the %d that follow it' % (len(buf), len(trailer)))
+    if out2 != out or getattr(again, 'uid', None) != pkt.uid:
+        ctx.viol('C08:edited-export-not-fixed-point:grow_uid', 'the edited user id packet (%d octets) is not a fixed point of parse/serialise' % n)
+
+
 def _edit(ctx, pgpy, st, case):
     C = pgpy.constants
+    if st['how'] == 'grow_uid':
+        return _grow_uid(ctx, pgpy, st)
     body, alg, secret = make_ref_key(st['keyalg'], 1_500_000_000, b'', case['run_seed'], label='c08edit%d' % st['seed'])
     pub = rkeys.parse_pub(body)
     uid = b'Edited <ed@example.org>'
